@@ -13,10 +13,25 @@ referenced type with that constraint (what the constraint means), so that
 gen_asn1.coq_env / coq_value and the admits oracle never see the library's
 parse.
 
+Serial application (round 5, `serial=True`, used by C11): a value-range or SIZE
+constraint is also written on a reference to a type that already carries
+constraints of that kind (on the built-in type and/or at earlier reference
+sites of an alias chain): all four combinations of extensible / non-extensible
+parent and child, one or more levels, as alias, member and list element.  The
+constraints form a SERIES (outermost parent first); the effective constraint
+keeps it under the key 'series' (meaning: Check/Serial.v admits_series; the
+fields lo/hi/ext are the collapsed single constraint, Serial.v collapse).
+
 Exclusion predicates (documented in notes/C11.md):
-  * a constraint is written on a reference only when the referenced type has no
-    constraint of that kind itself (serial application = replacement) and is not
-    part of a reference cycle;
+  * without `serial` (C12): a constraint is written on a reference only when the
+    referenced type has no constraint of that kind itself;
+  * with `serial`: the constraint written at the reference site is legal
+    (X.680 50.9: within the root of its parent); a bound MIN / MAX is written
+    on a side where the parent is bounded only when every earlier constraint
+    of the series is non-extensible (else X.680 makes it the bound of the
+    parent's ROOT, which the property's reading "extensible = admits
+    everything" does not define);
+  * never on a reference to a member of a reference cycle;
   * identifiers inf / nan / infinity are never used for named numbers or value
     references (known finding C11 named-bound-float).
 """
@@ -65,13 +80,62 @@ def cyclic_types(mod):
     return cyc
 
 
+def series_of(defs, t, kind):
+    """The constraints of one kind ('c' value range, 'size') that apply in
+    series to a component of type [t], outermost parent first: the constraint
+    of the built-in type at the end of the alias chain, then the one written at
+    every reference site on the way back."""
+    n = 0
+    stack = []
+    while t['k'] == 'REF':
+        o = (t.get('over') or {}).get(kind)
+        if o is not None:
+            stack.append(o)
+        t = defs[t['name']]
+        n += 1
+        assert n < 100
+    base = t.get('c' if kind == 'c' else 'size') if (t['k'] == 'INTEGER') == (kind == 'c') else None
+    if base is not None:
+        stack.append(base)
+    return t, stack[::-1]
+
+
+def root_of(series):
+    """(lo, hi) of the root of the last constraint of the series (MIN / MAX
+    standing for the parent's bound)."""
+    lo = hi = None
+    for c in series:
+        lo = c['lo'] if c['lo'] is not None else lo
+        hi = c['hi'] if c['hi'] is not None else hi
+    return lo, hi
+
+
+def collapse(series):
+    """The single constraint a series amounts to (mirror of Serial.v collapse;
+    compared with it on every run)."""
+    if len(series) == 1:
+        return dict(series[0])
+    lo = hi = None
+    ext = True
+    for c in series:
+        if c['ext']:
+            continue
+        ext = False
+        lo = c['lo'] if c['lo'] is not None else lo
+        hi = c['hi'] if c['hi'] is not None else hi
+    out = {'lo': series[-1]['lo'], 'hi': series[-1]['hi'], 'ext': True} if ext else {'lo': lo, 'hi': hi, 'ext': False}
+    out['series'] = [dict(c) for c in series]
+    return out
+
+
 class Decorator(object):
-    def __init__(self, rng, mod):
+    def __init__(self, rng, mod, serial=False):
         self.rng = rng
         self.mod = mod
         self.n = 0
         self.cyc = cyclic_types(mod)
         self.defs = dict(mod['types'])
+        self.serial = serial
 
     def fresh(self, p):
         self.n += 1
@@ -137,29 +201,46 @@ class Decorator(object):
         if t['name'] in self.cyc or r.random() < .35:
             return
         target = self.defs[t['name']]
+        if self.serial:
+            return self.decorate_ref_serial(t)
         if target['k'] == 'REF':
             return
         tk = target['k']
         over = {}
         g = gen_asn1.Gen(r, gen_asn1.Opts())
         if tk == 'INTEGER' and target.get('c') is None:
-            c = g.int_constraint()
-            if c is not None:
-                over['c'] = c
-                holder = {'named': None}
-                c['lo_txt'] = None if c['lo'] is None else self.bound_text(holder, c['lo'], False)
-                c['hi_txt'] = None if c['hi'] is None else self.bound_text(holder, c['hi'], False)
-                # a bound may also be one of the referenced type's named numbers
-                if target.get('named') and c['hi'] is not None and r.random() < .5:
-                    nm, nv = r.choice(target['named'])
-                    if c['lo'] is None or c['lo'] <= nv:
-                        c['hi'], c['hi_txt'] = nv, nm
+            self.fresh_int_over(g, target, over)
         elif tk in SIZED and target.get('size') is None:
-            s = g.size_constraint()
-            if s is not None and not (tk == 'BIT STRING' and target.get('named') and s['hi'] is not None
-                                      and s['hi'] <= target['named'][-1][1]):
-                over['size'] = s
-                self.decorate_size(s)
+            self.fresh_size_over(g, target, over)
+        self.alpha_over(target, over)
+        if over:
+            t['over'] = over
+
+    def fresh_int_over(self, g, target, over):
+        r = self.rng
+        c = g.int_constraint()
+        if c is not None:
+            over['c'] = c
+            holder = {'named': None}
+            c['lo_txt'] = None if c['lo'] is None else self.bound_text(holder, c['lo'], False)
+            c['hi_txt'] = None if c['hi'] is None else self.bound_text(holder, c['hi'], False)
+            # a bound may also be one of the referenced type's named numbers
+            if target.get('named') and c['hi'] is not None and r.random() < .5:
+                nm, nv = r.choice(target['named'])
+                if c['lo'] is None or c['lo'] <= nv:
+                    c['hi'], c['hi_txt'] = nv, nm
+
+    def fresh_size_over(self, g, target, over):
+        tk = target['k']
+        s = g.size_constraint()
+        if s is not None and not (tk == 'BIT STRING' and target.get('named') and s['hi'] is not None
+                                  and s['hi'] <= target['named'][-1][1]):
+            over['size'] = s
+            self.decorate_size(s)
+
+    def alpha_over(self, target, over):
+        r = self.rng
+        tk = target['k']
         if tk == 'STRING' and not target.get('alpha') and target['sk'] in KM_KINDS and r.random() < .5:
             pool = [c for c in ALPHABETS[target['sk']] if c.isalnum() or c == ' ']
             if target['sk'] == 'NumericString':
@@ -167,8 +248,160 @@ class Decorator(object):
             n = r.choice([1, 2, 3, 5, 9])
             over['alpha'] = sorted(r.sample(pool, min(n, len(pool))))
             over['alpha_ranges'] = r.random() < .5
+
+    # -- serial application ---------------------------------------------------
+    def decorate_ref_serial(self, t):
+        """A constraint at a reference site, whatever the referenced type (or
+        the alias chain behind it) already carries."""
+        r = self.rng
+        g = gen_asn1.Gen(r, gen_asn1.Opts())
+        ref0 = {'k': 'REF', 'name': t['name']}
+        base, cser = series_of(self.defs, ref0, 'c')
+        _, sser = series_of(self.defs, ref0, 'size')
+        tk = base['k']
+        over = {}
+        if tk == 'INTEGER':
+            if not cser:
+                self.fresh_int_over(g, base, over)
+            else:
+                over['c'] = self.serial_child(cser, 'c')
+        elif tk in SIZED:
+            if not sser:
+                self.fresh_size_over(g, base, over)
+            elif not (tk == 'BIT STRING' and base.get('named')):
+                over['size'] = self.serial_child(sser, 'size')
+        if self.defs[t['name']]['k'] != 'REF':
+            self.alpha_over(base, over)
         if over:
             t['over'] = over
+
+    def serial_child(self, series, kind):
+        """A legal constraint to apply on top of [series]: a sub-range of the
+        parent's root (often sharing a bound with it, sometimes a single
+        value), extensible or not; sometimes MIN / MAX where the whole series
+        before it is non-extensible."""
+        r = self.rng
+        lo, hi = root_of(series)
+        if kind == 'size' and lo is None:
+            lo = 0
+        if lo is not None and hi is not None:
+            w = hi - lo
+            a = lo + r.choice([0, 0, 1, w // 2, w // 3, w])
+            if kind == 'size':
+                # the lower bound of a SIZE stays near the parent's: every value of a list type has at least
+                # that many elements, and lists nest
+                a = min(a, lo + r.choice([0, 1, 2, 8]))
+            a = min(max(a, lo), hi)
+            b = r.choice([a, hi, hi, max(a, hi - 1), (a + hi) // 2])
+        elif lo is not None:
+            a = lo + r.choice([0, 0, 1, 5] if kind == 'c' else [0, 0, 1, 2])
+            b = None if r.random() < .25 else a + r.choice([0, 1, 7, 300])
+        elif hi is not None:
+            b = hi - r.choice([0, 0, 1, 5])
+            a = None if r.random() < .25 else b - r.choice([0, 1, 7, 300])
+        else:
+            a = r.choice([-5, 0, 1])
+            b = a + r.choice([0, 1, 7, 300])
+        c = {'lo': a, 'hi': b, 'ext': r.random() < .5}
+        if all(not x['ext'] for x in series) and r.random() < .25:
+            # MIN / MAX = the parent's bound (Serial.v: legal, not strictly legal when the parent is bounded there)
+            side = r.choice(['lo', 'hi']) if kind == 'c' else 'hi'
+            other = 'hi' if side == 'lo' else 'lo'
+            if c[other] is not None:
+                c[side] = None
+        if kind == 'size' and c['hi'] is None:
+            c['ext'] = False                 # gen_asn1.gen_len has no out-of-root length for SIZE(n..MAX, ...)
+        if kind == 'c':
+            holder = {'named': None}
+            c['lo_txt'] = None if c['lo'] is None else self.bound_text(holder, c['lo'], False)
+            c['hi_txt'] = None if c['hi'] is None else self.bound_text(holder, c['hi'], False)
+            if c['lo'] is not None and c['lo'] == c['hi'] and r.random() < .5:
+                c['single'] = True
+        else:
+            self.decorate_size(c)
+        return c
+
+    def add_serial_sites(self):
+        """Every module gets reference sites with serially applied constraints:
+        on a type of the module that already carries a value-range / SIZE
+        constraint (if any) and on a fresh constrained INTEGER and a fresh sized
+        type; as alias, SEQUENCE / SET / CHOICE member and list element; one or
+        two levels of reference."""
+        r = self.rng
+        g = gen_asn1.Gen(r, gen_asn1.Opts())
+        cands = []
+        for n, t in self.mod['types']:
+            if n in self.cyc:
+                continue
+            base, cser = series_of(self.defs, {'k': 'REF', 'name': n}, 'c')
+            _, sser = series_of(self.defs, {'k': 'REF', 'name': n}, 'size')
+            if (base['k'] == 'INTEGER' and cser) or (base['k'] in SIZED and sser
+                                                     and not (base['k'] == 'BIT STRING' and base.get('named'))):
+                cands.append(n)
+        parents = r.sample(cands, 1) if cands else []
+
+        def add(prefix, t):
+            name = self.fresh(prefix)
+            self.mod['types'].append((name, t))
+            self.defs[name] = t
+            return name
+        # fresh parents: all four ext combinations come from the parent's and the child's ext flags
+        lo, hi = g.bound_pair()
+        if r.random() < .3:
+            lo, hi = r.choice([(0, 10), (-3, 3), (1, 1), (0, 255), (0, 65535)])
+        side = r.random()
+        pc = {'lo': None if side < .1 else lo, 'hi': None if .1 <= side < .2 else hi, 'ext': r.random() < .4}
+        parents.append(add('Sp', {'k': 'INTEGER', 'c': pc, 'named': None}))
+        a = r.choice([0, 0, 1, 2, 5])
+        ps = {'lo': a, 'hi': None if r.random() < .1 else a + r.choice([0, 1, 2, 3, 7, 15]), 'ext': r.random() < .4}
+        if ps['hi'] is None:
+            ps['ext'] = False
+        kind = r.choice(['OCTET STRING', 'BIT STRING', 'STRING', 'STRING', 'SEQUENCE OF', 'SET OF'])
+        if kind == 'STRING':
+            pt = {'k': 'STRING', 'sk': r.choice(['IA5String', 'PrintableString', 'UTF8String', 'VisibleString']),
+                  'size': ps, 'alpha': None}
+        elif kind == 'BIT STRING':
+            pt = {'k': 'BIT STRING', 'named': None, 'size': ps}
+        elif kind == 'OCTET STRING':
+            pt = {'k': 'OCTET STRING', 'size': ps}
+        else:
+            pt = {'k': kind, 'elem': r.choice([{'k': 'BOOLEAN'}, {'k': 'INTEGER', 'c': None, 'named': None}]), 'size': ps}
+        parents.append(add('Sp', pt))
+        for p in parents:
+            ref = self.serial_ref(p)
+            if ref is None:
+                continue
+            if r.random() < .6:
+                # second level: an alias carrying the first constraint, the second one at the site
+                alias = add('Sr', ref)
+                ref2 = self.serial_ref(alias)
+                if ref2 is not None:
+                    ref = ref2
+                    if r.random() < .3:
+                        ref3 = self.serial_ref(add('Sr', ref))
+                        ref = ref3 or {'k': 'REF', 'name': alias}
+            # the same constrained reference at two kinds of site
+            for how in r.sample(['alias', 'member', 'elem'], 2):
+                ref = copy.deepcopy(ref)
+                if how == 'alias':
+                    add('Sr', ref)
+                elif how == 'elem':
+                    add('Sr', {'k': r.choice(['SEQUENCE OF', 'SET OF']), 'elem': ref, 'size': None})
+                else:
+                    k = r.choice(['SEQUENCE', 'SEQUENCE', 'SET', 'CHOICE'])
+                    add('Sr', {'k': k, 'ext': None,
+                               'root': [{'name': self.fresh('sm'), 't': ref,
+                                         'opt': 'optional' if k != 'CHOICE' and r.random() < .3 else None}]})
+
+    def serial_ref(self, name):
+        base, ser = series_of(self.defs, {'k': 'REF', 'name': name}, 'c')
+        kind = 'c'
+        if base['k'] != 'INTEGER':
+            base, ser = series_of(self.defs, {'k': 'REF', 'name': name}, 'size')
+            kind = 'size'
+        if not ser:
+            return None
+        return {'k': 'REF', 'name': name, 'over': {kind: self.serial_child(ser, kind)}}
 
 
 def constrained_ref_sites(t, member_name, out):
@@ -220,13 +453,80 @@ def add_twins(rng, mod):
     return mod
 
 
-def decorate(rng, mod):
+def decorate(rng, mod, serial=False):
     mod['values'] = list(mod.get('values') or [])
-    d = Decorator(rng, mod)
-    for _, t in mod['types']:
-        d.decorate(t)
+    d = Decorator(rng, mod, serial)
+    if not serial:
+        for _, t in list(mod['types']):
+            d.decorate(t)
+    else:
+        # aliases first, the referenced alias before the referring one: a constraint at a reference site is
+        # chosen inside the root of the series the referenced type carries, which must be final by then
+        done = set()
+
+        def alias(n):
+            if n in done:
+                return
+            done.add(n)
+            t = d.defs[n]
+            if t['k'] == 'REF':
+                alias(t['name'])
+                d.decorate(t)
+        for n, t in list(mod['types']):
+            if t['k'] == 'REF':
+                alias(n)
+        for _, t in list(mod['types']):
+            if t['k'] != 'REF':
+                d.decorate(t)
+        d.add_serial_sites()
+        mod['serial_dropped'] = drop_illegal(mod)
     add_twins(rng, mod)
     return mod
+
+
+def legal_child(series, c):
+    """The generator's legality predicate for a constraint [c] applied on top of
+    [series] (X.680 50.9: inside the parent's root; MIN / MAX on a bounded side
+    only when every earlier constraint is non-extensible).  Safety net:
+    Serial.v legal_series is evaluated on every series of every run."""
+    lo, hi = root_of(series)
+    allnon = all(not x['ext'] for x in series)
+    if c['lo'] is None:
+        if lo is not None and not allnon:
+            return False
+    elif (lo is not None and c['lo'] < lo) or (hi is not None and c['lo'] > hi):
+        return False
+    if c['hi'] is None:
+        if hi is not None and not allnon:
+            return False
+    elif (hi is not None and c['hi'] > hi) or (lo is not None and c['hi'] < lo):
+        return False
+    return c['lo'] is None or c['hi'] is None or c['lo'] <= c['hi']
+
+
+def drop_illegal(mod):
+    """Remove constraints at reference sites that are not legal on top of the
+    series they are applied to (expected: none)."""
+    defs = dict(mod['types'])
+    dropped = 0
+
+    def walk(t):
+        n = 0
+        if t['k'] == 'REF' and t.get('over'):
+            for kind in ('c', 'size'):
+                if kind in t['over']:
+                    _, ser = series_of(defs, {'k': 'REF', 'name': t['name']}, kind)
+                    if ser and not legal_child(ser, t['over'][kind]):
+                        del t['over'][kind]
+                        n += 1
+        for s in subtypes(t):
+            n += walk(s)
+        return n
+    while True:
+        n = sum(walk(t) for _, t in mod['types'])
+        dropped += n
+        if n == 0:
+            return dropped
 
 
 # ---------------------------------------------------------------------------
@@ -357,22 +657,31 @@ def render_module(mod):
 
 def effective(mod):
     """Module in which every constrained reference is replaced by the
-    referenced type carrying that constraint."""
+    referenced type carrying that constraint.  A value-range / SIZE constraint
+    on top of constraints the referenced type already carries is applied in
+    series: the effective constraint is `collapse(series)` and keeps the series
+    (its meaning) under the key 'series'."""
     defs = dict(mod['types'])
 
     def eff(t):
         t = dict(t)
         k = t['k']
         if k == 'REF' and t.get('over'):
-            target = copy.deepcopy(defs[t['name']])
+            target = eff(copy.deepcopy(defs[t['name']]))
+            n = 0
+            while target['k'] == 'REF':          # plain alias in between
+                target = eff(copy.deepcopy(defs[target['name']]))
+                n += 1
+                assert n < 100
             o = t['over']
-            if 'c' in o:
-                target['c'] = dict(o['c'])
-            if 'size' in o:
-                target['size'] = dict(o['size'])
+            for kind, field in (('c', 'c'), ('size', 'size')):
+                if kind in o and (target['k'] == 'INTEGER') == (kind == 'c'):
+                    parent = target.get(field)
+                    series = (parent.get('series') or [parent]) if parent else []
+                    target[field] = collapse([dict(c) for c in series] + [dict(o[kind])])
             if 'alpha' in o:
                 target['alpha'] = list(o['alpha'])
-            return eff(target)
+            return target
         if k in ('SEQUENCE', 'SET'):
             t['root'] = [dict(m, t=eff(m['t'])) for m in t['root']]
             if t['ext'] is not None:
@@ -391,12 +700,29 @@ def effective(mod):
     return out
 
 
-def generate(rng, opts=None, decorate_prob=1.0):
+def serial_sites(em):
+    """[(kind, series)] of every component of the effective module whose
+    constraint is a series of two or more."""
+    out = []
+
+    def walk(t):
+        for kind in ('c', 'size'):
+            c = t.get(kind)
+            if isinstance(c, dict) and c.get('series'):
+                out.append((kind, t['k'], c['series']))
+        for s in subtypes(t):
+            walk(s)
+    for _, t in em['types']:
+        walk(t)
+    return out
+
+
+def generate(rng, opts=None, decorate_prob=1.0, serial=False):
     """-> (mod, eff_mod, text, gen) ; gen generates values for eff_mod types."""
     opts = opts or gen_asn1.Opts()
     mod, _, g = gen_asn1.generate(rng, opts)
     if rng.random() < decorate_prob:
-        decorate(rng, mod)
+        decorate(rng, mod, serial)
     em = effective(mod)
     g.types = em['types']
     text = render_module(mod)
